@@ -28,7 +28,7 @@ def gen_cfg(rng, idx):
         pw = rng.choice([b"secret", b"x", b"correct horse battery staple!!!", b"\xff" * 32, b"pass word"])
     return {"tun": TUNS[idx % len(TUNS)] if idx < 2 * len(TUNS) else rng.choice(TUNS),
             "check_ip_off": rng.random() < 0.4,
-            "password": pw,
+            "password_hex": pw.hex(),
             "nops": rng.randint(35, 90),
             "v6": rng.random() < 0.35,
             "qtype": rng.choice(list(proto.QTYPES.values())),
@@ -62,6 +62,7 @@ def run_history(tag, cfg, seed, nops=None):
     k.keep_snaps = True
     H = Hist()
     H.sim, H.k, H.cfg, H.rng = sim, k, cfg, rng
+    H.password = bytes.fromhex(cfg["password_hex"])
     H.ok = False
     H.why = None
     H.parties = []
@@ -72,7 +73,7 @@ def run_history(tag, cfg, seed, nops=None):
     H.attacks = {}         # (kind, target state, source) -> count
     H.ident = 1
     extra = ["-c"] if cfg["check_ip_off"] else []
-    H.srv = sim.server(tun=cfg["tun"], password=cfg["password"], extra=extra)
+    H.srv = sim.server(tun=cfg["tun"], password=H.password, extra=extra)
     if not H.srv.alive():
         H.why = "server-died-at-start"
         return H
@@ -113,7 +114,7 @@ def _new_party(H, role):
         H.natt += 1
         ip = ("fd66::%x" % H.natt) if v6 else "10.66.0.%d" % H.natt
     server = (scen.SERVER_IP6 if v6 else scen.SERVER_IP, 53)
-    mc = mclient.ModelClient(ip, server, H.domain, H.cfg["password"], random.Random(rng.getrandbits(32)),
+    mc = mclient.ModelClient(ip, server, H.domain, H.password, random.Random(rng.getrandbits(32)),
                              qtype=H.cfg["qtype"] if rng.random() < 0.6 else rng.choice(list(proto.QTYPES.values())))
     H.k.add_actor(ip, mc)
     p = Party(mc, role, "%s%d" % (role[0], H.nleg if role == "legit" else H.natt))
@@ -167,7 +168,7 @@ def _join(H, want=None):
     if want == "v":
         return p
     if want == "badlogin":
-        d = bytearray(proto.login_hash(H.cfg["password"], p.mc.challenge))
+        d = bytearray(proto.login_hash(H.password, p.mc.challenge))
         d[rng.randrange(16)] ^= 1 << rng.randrange(8)
         p.mc.login(digest=bytes(d))
         if rng.random() < 0.5:
@@ -398,11 +399,11 @@ def _do_cmd(H, a, slot, kind):
         ch = (H.slot_challenges.get(slot) or [rng.getrandbits(32)])[-1]
         v = rng.randrange(4)
         if v == 0:      # the correct raw response - only privileged if the slot has done its DNS login
-            dg = proto.login_hash(H.cfg["password"], (ch + 1) & 0xFFFFFFFF)
+            dg = proto.login_hash(H.password, (ch + 1) & 0xFFFFFFFF)
         elif v == 1:    # the DNS-login response replayed as raw login
-            dg = proto.login_hash(H.cfg["password"], ch)
+            dg = proto.login_hash(H.password, ch)
         elif v == 2:
-            dg = proto.login_hash(H.cfg["password"], (ch - 1) & 0xFFFFFFFF)
+            dg = proto.login_hash(H.password, (ch - 1) & 0xFFFFFFFF)
         else:
             dg = bytes(rng.getrandbits(8) for _ in range(16))
         mc.send_raw_dgram(proto.raw_frame(proto.RAW_LOGIN, slot & 15, dg + (b"" if rng.random() < 0.8 else b"x" * 5)))
@@ -441,7 +442,7 @@ def op_login_attack(H):
         p = rng.choice(c)
     slot = p.slot
     ch = p.mc.challenge
-    pw = H.cfg["password"]
+    pw = H.password
     a, src = _attacker(H, p, want_foreign=rng.random() < 0.3)
     kind = rng.choice(LOGINS)
     good = proto.login_hash(pw, ch)
